@@ -39,7 +39,20 @@ class C09(Spec):
     driver = 'vector'
     lib_srcs = ['vector.c', 'array.c', 'memory.c']
     driver_extra = '-Wl,--wrap=malloc,--wrap=realloc,--wrap=free,--wrap=calloc'
-    header_words = ('vec', 'fail', 'failfrom')
+    header_words = ('vec', 'fail', 'failfrom', 'samecb')
+
+    def more_variants(self, cases, tier, seed):
+        # every second case with a vector that has both callbacks once more with ONE function in both roles
+        out, n = [], 0
+        for c in cases:
+            if any(h.split()[0] == 'samecb' for h in c.header):
+                continue
+            if not any(h.split()[0] == 'vec' and h.split()[2:4] == ['1', '1'] for h in c.header):
+                continue
+            n += 1
+            if n % 2 == 0:
+                out.append(Case(c.name + 'b', c.header + ['samecb 1'], c.ops, c.origin))
+        return out
     rule = ('cases = corpus + one case per edge of the breadth-first closure of the Coq model (allocator history '
             'normalised away) over sizes {0..3, SIZE_MAX, SIZE_MAX-1, SIZE_MAX/esize and neighbours}, several element '
             'sizes and constructor/destructor configurations + seeded random histories with allocation failures by '
@@ -319,6 +332,10 @@ def c16_base_cases(tier, seed):
                           'put 0 2 77', 'shrink 0', 'resize 0 2']),
         (['vec 4 0 0', 'vec 8 1 1'], ['reserve 0 0', 'resize 0 0', 'shrink 0', 'reserve 0 1', 'resize 0 1', 'clear 0', 'shrink 0',
                                       'reserve 0 0', 'reserve 1 0', 'resize 1 2', 'sort 1', 'reverse 1']),
+        # the largest count whose elements fit but whose elements + scratch cell do not, and its neighbours
+        (['vec 4 0 0', 'vec 12 1 1', 'vec 2 0 0'],
+         ['resize 0 2', 'put 0 1 9', 'reserve 0 4611686018427387903', 'reserve 0 4611686018427387902', 'reserve 0 4611686018427387904', 'at 0 1', 'resize 1 1', 'reserve 1 1537228672809129301',
+          'reserve 1 1537228672809129300', 'put 1 0 3', 'reserve 2 9223372036854775807', 'reserve 2 9223372036854775806', 'resize 2 1', 'shrink 0', 'shrink 1']),
         (['vec 2 1 1'], ['resize 0 3', 'put 0 0 30', 'put 0 1 20', 'put 0 2 10', 'sort 0', 'reserve 0 5',
                          'reverse 0', 'shrink 0', 'resize 0 4']),
     ]
